@@ -261,6 +261,29 @@ def text_passphrase_octets(spec: int, salt: bytes, pw: str) -> bool:
         F.String2Key.derive_key = saved
 
 
+NCFG = len(_c12.CONFIGS)
+
+
+@ob('O6.6c', 'the key-encryption key of a protected key uses one hash context per digest-sized part of the cipher key, each preloaded with its own number of zero octets '
+             '(ciphers whose key is longer than the digest: AES-256 / 3DES with SHA-1, AES-192 with RIPEMD-160, ...): shared with C12-O12.3a, on the real derive_key',
+    'as C12-O12.3a: 10 (hash, cipher) configurations with 1 and 2 contexts; Simple and Salted S2K; symbolic salt and passphrase of 0..3 octets', cond_timeout={'q': 240, 't': 900},
+    partitions=[['cfg == %d' % i] for i in range(len(_c12.CONFIGS))])
+def contexts_per_key_part(spec: int, cfg: int, salt: bytes, pw: bytes) -> bool:
+    """
+    pre: spec in (0, 1)
+    pre: 0 <= cfg < NCFG
+    pre: len(salt) == 8
+    pre: len(pw) <= 3
+    post: _
+    """
+    saved = F.String2Key.derive_key
+    F.String2Key.derive_key = encfix.REAL_DERIVE_KEY
+    try:
+        return _c12.simple_salted(spec, cfg, salt, pw)
+    finally:
+        F.String2Key.derive_key = saved
+
+
 @ob('O6.7', 'a foreign protected key that was unlocked and locked again exports the octets it was imported with: nothing of the unlock (integers, checksum) stays behind in the export',
     'DSA / RSA secret key packet with S2K usage 254 or 255 (iterated S2K, AES-128); the cipher stand-in returns the well-formed secret string with 2 symbolic octets; unlock scope ends normally or by an exception',
     cond_timeout={'q': 280, 't': 900}, flags=('symmpi',), partitions=[['u255'], ['not u255']])
@@ -360,7 +383,7 @@ def foreign_forms(spec: int, u255: bool, x0: int, x1: int) -> bool:
     return False
 
 
-SANITY = ['export_after_unlock(%s, %s, %s, 0x81, 0x92)' % (u, r, x) for u in (True, False) for r in (True, False) for x in (True, False)] + ['text_passphrase_octets(1, b"12345678", "\\u00e9\\u00fc")', 'text_passphrase_octets(0, b"12345678", "a")'] + ['replay_arith(1100, 0, True)', 'replay_arith(0, 0, False)', 'protect_layout(0, 0x81, 2, 3, 4, "pw", bytes(range(16)), bytes(range(100, 116)))', 'protect_layout(1, 0xFF, 0, 0, 0, "", bytes(16), bytes(range(50, 66)))', 'protect_layout(3, 0x80, 9, 9, 9, "\\u00e9", bytes(range(16)), b"abcdefghijklmnop")',
+SANITY = ['contexts_per_key_part(%d, %d, b"12345678", b"ab")' % (sp, c) for sp in (0, 1) for c in range(len(_c12.CONFIGS))] + ['export_after_unlock(%s, %s, %s, 0x81, 0x92)' % (u, r, x) for u in (True, False) for r in (True, False) for x in (True, False)] + ['text_passphrase_octets(1, b"12345678", "\\u00e9\\u00fc")', 'text_passphrase_octets(0, b"12345678", "a")'] + ['replay_arith(1100, 0, True)', 'replay_arith(0, 0, False)', 'protect_layout(0, 0x81, 2, 3, 4, "pw", bytes(range(16)), bytes(range(100, 116)))', 'protect_layout(1, 0xFF, 0, 0, 0, "", bytes(16), bytes(range(50, 66)))', 'protect_layout(3, 0x80, 9, 9, 9, "\\u00e9", bytes(range(16)), b"abcdefghijklmnop")',
           'unlock_accept(True, b"\\x00\\x08\\x05\\x00\\x0d")', 'unlock_accept(True, b"\\x00\\x08\\x05\\x00\\x0e")', 'unlock_accept(False, b"\\x00\\x08\\x05" + inj_digest(b"\\x00\\x08\\x05"))',
           'unlock_accept(False, bytes(23))', 'unlock_scope(0, 0x81, 2, 3, 4, 0x91, 7, False, True)', 'unlock_scope(3, 0x81, 2, 3, 4, 0x91, 7, True, True)', 'unlock_scope(0, 0x81, 2, 3, 4, 0x91, 7, False, False)',
           'unlock_partial_failure(0, 0x81, 0x82, 0x83, 0x84, 0x91, 0x92)', 'unlock_partial_failure(3, 0x81, 0x82, 0x83, 0x84, 0x91, 0x92)', 'export_independent(0, 0xF1, 9, 9, 9)', 'export_independent(3, 0xF1, 9, 9, 9)', 'foreign_forms(3, False, 1, 2)', 'foreign_forms(0, True, 1, 2)', 'foreign_forms(101, False, 0, 0)', 'foreign_forms(1, True, 0, 0)']
